@@ -897,6 +897,9 @@ class EClass(EClassifier):
         elif notif.feature is EClass.eOperations:
             if notif.kind is Kind.ADD:
                 self.__create_fun(notif.new)
+            elif notif.kind is Kind.ADD_MANY:
+                for x in notif.new:
+                    self.__create_fun(x)
         elif notif.feature is EClass.eStructuralFeatures:
             if notif.kind is Kind.ADD:
                 setattr(self.python_class, notif.new.name, notif.new)
